@@ -272,6 +272,8 @@ func (c cacheCase) Run() (sx.V, error) {
 	}()
 	perf := newPerformer(nil)
 	perf.clFromHeader = true
+	perf.runaway = make(chan struct{})
+	defer close(perf.runaway)
 	var cache caching.Cache
 	var ts *httptest.Server
 	start := func() {
@@ -318,7 +320,7 @@ func (c cacheCase) Run() (sx.V, error) {
 			if err != nil {
 				return sx.L(), err
 			}
-			if !caching.VerifWaitIdle(cache, 5*time.Second) {
+			if o.Kind != "no-response" && !caching.VerifWaitIdle(cache, 5*time.Second) {
 				return sx.L(), fmt.Errorf("cache keys still locked 5 s after the request completed")
 			}
 			perf.mu.Lock()
